@@ -159,13 +159,57 @@ def rule_captures(ctx):
               facts.bodies()[fn]["loc"], detail={"map": "captures.iter().map(|c| (c, fresh(c)))"})
 
 
+def rule_layout_stability(ctx):
+    """the physical layout of a product must not depend on how much of its type happens to be known at a site"""
+    rule = "layout-stability"
+    facts = ctx.facts
+    ctx.rule(rule, "Lowerer::product_arity (the number of words of a product object, used by every site that builds or reads one) is the "
+                   "same function of a type and of every instance of it: it must not flatten a tail that is syntactically a product "
+                   "while counting a tail that is a type variable / abstract type as one word, because the producer and the consumer "
+                   "of one object see different instances of the same type (a polymorphic function and its caller, the two sides of "
+                   "an existential package)")
+    fn = "zydeco_stackir::sps::lower::Lowerer::<'a>::product_arity"
+    h = ctx.need_hir(rule, fn)
+    if h is None:
+        return
+    loc = facts.bodies()[fn]["loc"]
+    flattens = False
+    default_one = False
+    for m in H.walk(h["body"]):
+        if H.kind(m) != "Match" or m.get("src"):
+            continue
+        for a in m["arms"]:
+            shape = A.pat_shape(a["pat"])
+            rec = any((H.callee(c) or "") == fn for c in H.walk(a["body"]) if H.kind(c) in ("Call", "MethodCall"))
+            if "Prod" in shape and rec and m is not A.find_match_on(h["body"], lambda n: True):
+                flattens = True
+            if H.pat_is_catch_all(A.strip_or(a["pat"])) and A.sexpr(a["body"], None) == "1":
+                default_one = True
+    if flattens and default_one:
+        ctx.violation(rule, "product_arity:tail-by-syntactic-shape", "Lowerer::product_arity flattens the tail of a product when it is "
+                      "syntactically a product at this site and counts any other tail (a type variable, an abstract type) as one word: "
+                      "`def ! pair (A : VType) (a : A) : Ret (Int64 * A) = ret (1, a)` builds a 2-word object that the caller at "
+                      "`A = Int64 * Int64` reads as 3 words, and an existential package `(Int64 * Int64, snd, (3, 5))` is packed as "
+                      "`product:2/3` and unpacked as `product:2/2`", loc)
+    else:
+        ctx.ok(rule, "product_arity:stable", {"flattens_syntactic_tails": flattens, "counts_other_tails_as_one": default_one})
+
+
 def run(ctx):
     rule_tags(ctx)
     rule_captures(ctx)
     ctx.rule("variable-equations", "free-variable and bound-variable equations of both IRs, arm by arm (rules/golden_freevars.json)")
     golden.check(ctx, "variable-equations", "golden_freevars.json")
-    ctx.assume("product layout is computed from the static type at each site; a product whose tail type is a type variable gets a different "
-               "physical arity on the two sides of a polymorphic call (confirmed on the pinned tree, findings/candidates/C19/poly.zy): NOT "
-               "detected by these rules, documented in DESIGN.md")
+    ctx.rule("lowering", "every arm of the two lowering passes performs the audited construction (rules/golden_lowering.json). Stack-passing "
+                         "form: an abstraction pops its argument from the stack it runs on, an application pushes the lowered argument, `do` "
+                         "pushes a continuation frame whose body runs on the CURRENT stack, a coproduct match names the current stack once "
+                         "(`let • = stack`) around the match and an irrefutable match lowers its arm against the current stack, destructor "
+                         "/ constructor tags are positions in the declaration, value plans are sequenced before their use. Closure "
+                         "conversion: a sub-term is translated in the environment of the place where it RUNS (the stack and the captured "
+                         "values of a closure / continuation / fix entry in the surrounding environment, the body in the environment "
+                         "extended with the captures, then the binder), a block pops what the jump pushes in the same order (returned "
+                         "value, then environment), tuple values keep their typed layout")
+    golden.check(ctx, "lowering", "golden_lowering.json")
+    rule_layout_stability(ctx)
     ctx.assume("continuation packaging, builtin package wiring and the assembly lowering's register/stack discipline are NOT analysed")
     return {}
